@@ -285,7 +285,9 @@ fn body(c: &Case) -> Result<(), String> {
             .lines()
             .filter(|l| {
                 let fd: i32 = l.split(' ').next().and_then(|x| x.parse().ok()).unwrap_or(-1);
-                fd > 2 && !l.contains("/proc/")
+                // descriptors that were already open when this execution started are the
+                // harness's own (or its caller's), not the library's
+                fd > 2 && !l.contains("/proc/") && !fds0.iter().any(|(f, _)| *f == fd)
             })
             .collect();
         if !inherited.is_empty() {
@@ -338,7 +340,9 @@ fn body(c: &Case) -> Result<(), String> {
     for a in &snap.anomalies {
         match a.what.as_str() {
             "close-ebadf" | "close-foreign" | "close-error" | "reuse-of-open" => return Err(format!("[bad-close] {}", a.detail)),
-            "no-cloexec" => return Err(format!("[no-cloexec] {}", a.detail)),
+            // creation without close-on-exec is not by itself a violation (the flag may be set
+            // right afterwards): what counts is what an exec'ed child inherits, checked above
+            "no-cloexec" => {},
             _ => {},
         }
     }
@@ -368,7 +372,7 @@ pub fn cases(tier: Tier) -> Vec<Case> {
     let mut v = Vec::new();
     for (i, s) in seqs.into_iter().enumerate() {
         let n = s.len();
-        v.push(Case { ops: s.clone(), reverse_drop: false, exec_check: n <= 2 || i % 8 == 0 });
+        v.push(Case { ops: s.clone(), reverse_drop: false, exec_check: n <= 2 || i % 3 == 0 });
         v.push(Case { ops: s, reverse_drop: true, exec_check: false });
     }
     if !tier.is_quick() {
@@ -411,7 +415,7 @@ pub fn run(tier: Tier, _part: bool) -> i32 {
     }
     rep.set("evaluations", json!(n));
     rep.set("distinct_nontrivial", json!(distinct.len()));
-    rep.set("rule", json!("case = operation sequence of length <= 3 (4 thorough) over 18 public-API operations (channel, bytes channel, clone, send small / 3-packet / with sender+receiver+region, recv, try_recv of a message, try_recv on empty, transfer receiver, set add+select, region create / clone, one-shot round trip / dropped unused, connect to a non-existent name, send to a closed receiver, private router route + shutdown) x drop order forward / reverse; ledger in no-reuse numbering mode, /proc/self/fd + maps + temp-root listing compared with the start, exec'ed child lists what it inherited (all cases of length <= 2 and every 8th longer one); distinct_nontrivial = passing sequences of length >= 2"));
+    rep.set("rule", json!("case = operation sequence of length <= 3 (4 thorough) over 18 public-API operations (channel, bytes channel, clone, send small / 3-packet / with sender+receiver+region, recv, try_recv of a message, try_recv on empty, transfer receiver, set add+select, region create / clone, one-shot round trip / dropped unused, connect to a non-existent name, send to a closed receiver, private router route + shutdown) x drop order forward / reverse; ledger in no-reuse numbering mode, /proc/self/fd + maps + temp-root listing compared with the start, exec'ed child lists what it inherited (all cases of length <= 2 and every 3rd longer one); distinct_nontrivial = passing sequences of length >= 2"));
     rep.set("exhaustive", json!(true));
     rep.sample(serde_json::to_value(&cs[cs.len() / 2]).unwrap());
     rep.sample(serde_json::to_value(&cs[cs.len() - 1]).unwrap());
